@@ -89,6 +89,7 @@ class OsPatches:
     def __init__(self, impl):
         self.impl = impl
         self.deny = set()            # (pid, relative name)
+        self.errno = None            # errno of the injected failure (None = EACCES)
         ps = impl.ps
         linux = ps._pslinux
         self.saved = [(linux.cext, "proc_cpu_affinity_get", linux.cext.proc_cpu_affinity_get),
@@ -141,7 +142,10 @@ class OsPatches:
         if path.startswith(root):
             parts = path[len(root):].split("/")
             if len(parts) >= 2 and parts[0].isdigit() and (int(parts[0]), parts[1]) in self.deny:
-                raise PermissionError(13, "Permission denied", path)
+                if self.errno in (None, 13):
+                    raise PermissionError(13, "Permission denied", path)
+                # any other errno: OSError picks the subclass (ESRCH -> ProcessLookupError, EIO -> plain OSError)
+                raise OSError(self.errno, os.strerror(self.errno), path)
 
     def close(self):
         for obj, name, val in reversed(self.saved):
